@@ -309,6 +309,89 @@ def main():
                         R.ok((v, mname, 'noop-profile'))
                 except Exception as e:
                     R.fail('C18:noop-profile-raises:%s:%s' % (v, mname), 'C18:noop-profile-raises:%s' % type(e).__name__, 'v%s %s: %s' % (v, mname, e))
+    # ---- C18: profile lookup, legacy detection, and threading of the profile's references through group repetitions
+    from hl7apy.parser import parse_message
+    from hl7apy.exceptions import MessageProfileNotFound, LegacyMessageProfile
+    for v in versions:
+        L = lib(v)
+        if 'ORU_R01' not in L.MESSAGES or 'ADT_A01' not in L.MESSAGES:
+            continue
+        text = 'MSH|^~\\&|S|F|R|F|20200131||ORU^R01^ORU_R01|ID|P|%s\rPID|1||5\rOBR|1||X|C\rNTE|1||a\rOBX|1|ST|G||v\rOBR|2||Y|C\rNTE|1||b\rOBX|1|ST|G||w' % v
+        for lvl in (None, 2, 1):
+            try:
+                parse_message(text, validation_level=lvl, message_profile={'ADT_A01': L.MESSAGES['ADT_A01']})
+                R.fail('C18:profile-missing-structure:%s:%s' % (v, lvl), 'C18:missing-structure-not-reported',
+                       'v%s level %s: a profile without ORU_R01 was silently ignored' % (v, lvl))
+            except MessageProfileNotFound:
+                R.ok((v, 'mpnf', lvl))
+            except Exception as e:
+                R.fail('C18:profile-missing-structure-exc:%s:%s' % (v, lvl), 'C18:missing-structure-other-exception:%s' % type(e).__name__, str(e))
+        try:
+            Message('ORU_R01', version=v, reference={'ADT_A01': L.MESSAGES['ADT_A01']})
+            R.fail('C18:ctor-missing-structure:%s' % v, 'C18:missing-structure-not-reported', 'Message(ORU_R01, reference=<profile without it>) accepted')
+        except MessageProfileNotFound:
+            R.ok((v, 'ctor-mpnf'))
+        try:
+            Message('ORU_R01', version=v, reference={'ORU_R01': ('mp', 'legacy')})
+            R.fail('C18:legacy:%s' % v, 'C18:legacy-profile-not-reported', 'legacy profile accepted')
+        except LegacyMessageProfile:
+            R.ok((v, 'legacy'))
+        except Exception as e:
+            R.fail('C18:legacy-exc:%s' % v, 'C18:legacy-profile-other-exception:%s' % type(e).__name__, str(e))
+        # a profile that tightens NTE inside the repeatable ORDER_OBSERVATION group to (0, 1)
+        def retighten(ref, depth=0):
+            kids = []
+            for n, c, card, k in ref[1]:
+                if k == 'GRP' and c is not None and depth < 5:
+                    c = retighten(c, depth + 1)
+                if n == 'NTE' and depth >= 1:
+                    card = (0, 1)
+                kids.append((n, c, card, k))
+            return (ref[0], tuple(kids)) + tuple(ref[2:])
+        prof = {'ORU_R01': retighten(L.MESSAGES['ORU_R01'])}
+        for lvl in (2, 1):
+            try:
+                m = parse_message(text, validation_level=lvl, message_profile=prof)
+            except Exception as e:
+                R.fail('C18:profile-parse:%s:%s' % (v, lvl), 'C18:profile-parse-raises:%s' % type(e).__name__, 'v%s: %s' % (v, e))
+                continue
+            groups = []
+
+            def walk(el):
+                for c in el.children:
+                    if c.classname == 'Group':
+                        groups.append(c)
+                        walk(c)
+            walk(m)
+            oo = [g for g in groups if 'NTE' in (g.repetitions or {}) and g.name != 'ORU_R01']
+            bad = [(g.name, g.repetitions['NTE']) for g in oo if tuple(g.repetitions['NTE']) != (0, 1)]
+            if len(oo) < 2:
+                R.fail('C18:profile-groups:%s:%s' % (v, lvl), 'C18:profile-group-repetitions-missing', 'v%s: %d groups carry NTE' % (v, len(oo)))
+            elif bad:
+                R.fail('C18:profile-threading:%s:%s' % (v, lvl), 'C18:group-repetition-ignores-profile',
+                       'v%s level %d: group repetitions with the standard cardinality instead of the profile\'s (0, 1): %s' % (v, lvl, bad))
+            else:
+                R.ok((v, 'threading', lvl))
+            # children created by add_* / traversal inside a profiled group take the profile's structure
+            try:
+                g = oo[-1]
+                s = g.add_segment('NTE') if not g.nte else None
+                if tuple(g.repetitions['NTE']) != (0, 1):
+                    R.fail('C18:add-segment:%s:%s' % (v, lvl), 'C18:add-helper-ignores-profile', 'v%s' % v)
+            except Exception:
+                pass
+            if lvl == 2:
+                # two more NTE added through the API where the profile allows one: validate() judges against the profile
+                g = oo[-1]
+                for i in (2, 3):
+                    s2 = g.add_segment('NTE')
+                    s2.nte_1 = str(i)
+                r2 = m.validate(return_errors=True)
+                if not any('Child limit exceeded' in str(e) and 'NTE' in str(e) for e in r2.errors):
+                    R.fail('C18:validate-against-profile:%s' % v, 'C18:validate-ignores-profile',
+                           'v%s: three NTE where the profile allows one were not reported: %s' % (v, [str(e) for e in r2.errors[:4]]))
+                else:
+                    R.ok((v, 'validate-profile'))
     R.rule = 'conforming instance generated from the structure + each single-point mutation; distinct (version, message, mutation)'
     R.bound = '%d versions, %s message structures each (%d skipped: not instantiable by the generator)' % (
         len(versions), 'all' if a.tier == 'thorough' else 'core + 12 seeded', skipped)
